@@ -26,7 +26,11 @@ def run(res, replay=None):
         specs = [replay['replay']['spec']]
     else:
         for i in range(nspec):
-            if i % 4 == 3:
+            if i % 4 == 1:
+                # the same rates in force in two finite epochs of different duration (nothing remembered per Epoch may be
+                # reused for another duration); scalar calls and quantiles cross both epochs in one step
+                s = gen.recurring_spec(rng, n_total=rng.choice([2, 3, 4]), n_demes=rng.choice([1, 1, 2]))
+            elif i % 4 == 3:
                 s = gen.rand_spec(rng, n_total=rng.choice([2, 3]), n_demes=1, n_epochs=rng.choice([1, 2]), loci=2, end_time='never')
                 s['recombination_rate'] = rng.choice([0.0, 0.5, 2.0])
             else:
@@ -36,17 +40,20 @@ def run(res, replay=None):
                                   end_time=('always' if i % 2 == 0 else 'never'))
             specs.append(s)
     qs_levels = [0.05, 0.5, 0.9, 0.99]
+    NS = 4      # number of single-time cdf calls per configuration
     cases = []
     for s in specs:
         bs = boundaries(s)
         ts = sorted(set([0.0, 0.0625, 0.5, 1.0, 2.0, 6.0] + bs + [max(bs) + 1.5]))
         ts = ts[:1] + rng.sample(ts[1:], len(ts) - 1)      # arbitrary order after t = 0 (values are compared per position)
         grid = [i * 0.125 for i in range(0, 321)]      # for the integral of the survival function (up to t = 40)
-        ops = [{'kind': 'cdf', 'ts': ts}] + [{'kind': 'cdf', 'ts': [t]} for t in ts[:3]] + \
+        far = max(bs) + 1.5
+        scal = ts[:3] + [far]
+        ops = [{'kind': 'cdf', 'ts': ts}] + [{'kind': 'cdf', 'ts': [t]} for t in scal] + \
               [{'kind': 'quantile', 'q': q} for q in qs_levels] + \
               [{'kind': 'pdf', 'ts': [0.25, 1.0, 2.5, 0.0], 'dx': 2.0 ** -12}, {'kind': 'attr', 'path': 'tree_height.mean'},
                {'kind': 'cdf', 'ts': grid}, {'kind': 'cdf', 'ts': [1e3, 1e4]}]
-        cases.append({'spec': s, 'ops': ops, 'ts': ts})
+        cases.append({'spec': s, 'ops': ops, 'ts': ts, 'far_pos': ts.index(far)})
     outs = C.run_impl_parallel('numeric.py', [{'cases': [{'spec': c['spec'], 'ops': c['ops']}]} for c in cases])
     bodies, keep = [], []
     h = 2.0 ** -13      # half of the dx passed to pdf: the model evaluates the very same difference quotient
@@ -56,7 +63,7 @@ def run(res, replay=None):
             res.violation('valid configuration raised', {'spec': c['spec'], 'error': r.get('error') or r['errors']})
             continue
         nts = len(c['ts'])
-        tq = r['values'][1 + 3: 1 + 3 + len(qs_levels)]
+        tq = r['values'][1 + NS: 1 + NS + len(qs_levels)]
         pdf_pts = [0.25, 1.0, 2.5]
         model_ts = list(c['ts']) + list(tq) + [x + s_ for x in pdf_pts for s_ in (-h, h)] + [0.0, 2.0 ** -12]
         # the code's own difference quotient: x1 = max(t - dx/2, 0), x2 = x1 + dx with dx = 2^-12 (exact in binary64)
@@ -80,9 +87,11 @@ def run(res, replay=None):
                 res.violation('cdf differs from the absorption probability of the labelled process (model)',
                               {'spec': c['spec'], 't': t, 'expected': mv, 'observed': iv})
                 break
-        for j in range(3):   # scalar-ish calls
-            if abs(r['values'][1 + j][0] - vec[j]) > 1e-10:
-                res.violation('cdf of one time differs from the vectorised value', {'spec': c['spec'], 't': c['ts'][j]})
+        for j in range(NS):   # scalar-ish calls (the last one lies beyond every change point)
+            pos = j if j < 3 else c['far_pos']
+            if abs(r['values'][1 + j][0] - vec[pos]) > 1e-10 or abs(r['values'][1 + j][0] - m[pos]) > 1e-9:
+                res.violation('cdf of one time alone differs from the vectorised value / the model',
+                              {'spec': c['spec'], 't': c['ts'][pos], 'alone': r['values'][1 + j][0], 'vectorised': vec[pos], 'model': m[pos]})
         for q, t, mv in zip([0.05, 0.5, 0.9, 0.99], tq, m[nts:nts + len(tq)]):
             res.count((key, 'quantile', q))
             if abs(mv - q) > 1e-5 + 1e-9:
@@ -91,22 +100,22 @@ def run(res, replay=None):
         pm = m[nts + len(tq):]
         for k_, x in enumerate(pdf_pts[:3]):
             d_model = (pm[2 * k_ + 1] - pm[2 * k_]) / 2.0 ** -12
-            d_impl = r['values'][1 + 3 + 4][k_]
+            d_impl = r['values'][1 + NS + 4][k_]
             res.count((key, 'pdf', x))
             if abs(d_model - d_impl) > 1e-6 * abs(d_model) + 2e-6:
                 res.violation('pdf does not agree with the derivative of the cdf',
                               {'spec': c['spec'], 't': x, 'model_derivative': d_model, 'observed_pdf': d_impl})
         # density at t = 0: right derivative of the model cdf
         d0_model = (pm[-1] - pm[-2]) / 2.0 ** -12      # the same one-sided difference the code uses at t = 0 (dx = 2^-12)
-        d0_impl = r['values'][1 + 3 + 4][3]
+        d0_impl = r['values'][1 + NS + 4][3]
         res.count((key, 'pdf', 0.0), nontrivial=d0_model > 1e-6)
         if abs(d0_model - d0_impl) > 1e-6 * abs(d0_model) + 1e-9:
             res.violation('pdf(0) does not agree with the (right) derivative of the cdf at 0',
                           {'spec': c['spec'], 't': 0.0, 'model_derivative': d0_model, 'observed_pdf': d0_impl})
         # oracles on the implementation
-        mean = r['values'][1 + 3 + 4 + 1]
-        grid = r['values'][1 + 3 + 4 + 2]
-        far = r['values'][1 + 3 + 4 + 3]
+        mean = r['values'][1 + NS + 4 + 1]
+        grid = r['values'][1 + NS + 4 + 2]
+        far = r['values'][1 + NS + 4 + 3]
         srt = sorted(zip(c['ts'], vec))
         if any(b[1] < a[1] - 1e-12 for a, b in zip(srt, srt[1:])):
             res.violation('cdf values of one vector call are not non-decreasing in t', {'spec': c['spec'], 'ts': c['ts'], 'cdf': vec})
